@@ -199,11 +199,11 @@ Fixpoint installed (v0 : key -> option value) (lg : list event) (k : key) : opti
   | _ :: r => installed v0 r k
   end.
 
-(** the value bound to the key at the instant of thread [t]'s open(2) *)
-Fixpoint value_at_open (v0 : key -> option value) (lg : list event) (t : tid) : option (option value) :=
+(** the key thread [t] opened and the value bound to it at the instant of that open(2) *)
+Fixpoint value_at_open (v0 : key -> option value) (lg : list event) (t : tid) : option (key * option value) :=
   match lg with
   | [] => None
-  | EvOpen t' k :: r => if Nat.eqb t' t then Some (installed v0 r k) else value_at_open v0 r t
+  | EvOpen t' k :: r => if Nat.eqb t' t then Some (k, installed v0 r k) else value_at_open v0 r t
   | _ :: r => value_at_open v0 r t
   end.
 
